@@ -95,6 +95,23 @@ def classify_crash(stderr):
     return "taskctl-panic" if "github.com/taskctl/taskctl" in stderr[idx:] else "unknown"
 
 
+def classify_hang(stacks):
+    """What a real-time hang (watchdog) is. 'taskctl-deadlock:<what>' only for lock cycles that are
+    entirely explained by the stacks; everything else stays harness trouble."""
+    gs = stacks.split("\n\n")
+    def has(g, *frames):
+        return all(f in g for f in frames)
+    # cockpit: remove() holds the cockpit lock and waits for the spinner's lock inside Restart/Stop,
+    # while the spinner's goroutine holds its lock and waits for the cockpit lock in PreUpdate
+    a = [g for g in gs if has(g, "output.(*baseCockpit).remove", "spinner.(*Spinner).Stop") and ("Mutex" in g.split("\n")[0] or "semacquire" in g.split("\n")[0])]
+    b = [g for g in gs if has(g, "spinner.(*Spinner).Start.func1", "output.(*baseCockpit).start.func1") and ("Mutex).Lock" in g)]
+    if a and b:
+        return "taskctl-deadlock:cockpit-lock-order"
+    if "briandowns/spinner" in stacks and re.search(r"sync\.\(\*(RW)?Mutex\)\.(R?Lock)[^\n]*\n[^\n]*\n[^\n]*spinner\.\(\*Spinner\)", stacks):
+        return "spinner-hazard"
+    return "unknown"
+
+
 class Batch:
     """One (engine, profile) batch of runs spread over worker processes."""
 
@@ -105,13 +122,14 @@ class Batch:
         self.crashes = []
         self.harness_errors = []
         self.spinner_hangs = 0
+        self.deadlocks = []
         self.lock = threading.Lock()
 
     def job(self, i, start=0, count=0, budget=None):
         return {"engine": self.part["engine"], "prop": self.prop, "profile": self.part["profile"], "tier": self.tier,
                 "base": self.base, "worker": i, "workers": self.nworkers, "start": start, "count": count,
                 "budget_s": self.budget_s if budget is None else budget, "samples": 2,
-                "opts": self.part.get("opts", []), "watchdog_s": 60}
+                "opts": self.part.get("opts", []), "watchdog_s": 20 if self.tier == "quick" else 60}
 
     def _worker_loop(self, i):
         deadline = time.time() + self.budget_s
@@ -137,7 +155,10 @@ class Batch:
                         self.results.append(r)
                 elif t == "done":
                     done = True
-                elif t == "watchdog" and "briandowns/spinner" in r.get("stacks", "") and re.search(r"sync\.\(\*(RW)?Mutex\)\.(R?Lock)[^\n]*\n[^\n]*\n[^\n]*spinner\.\(\*Spinner\)", r.get("stacks", "")):
+                elif t == "watchdog" and classify_hang(r.get("stacks", "")).startswith("taskctl-deadlock"):
+                    with self.lock:
+                        self.deadlocks.append({"kind": classify_hang(r["stacks"]), "index": r.get("index"), "seed": r.get("seed"), "stacks": r["stacks"]})
+                elif t == "watchdog" and classify_hang(r.get("stacks", "")) == "spinner-hazard":
                     # third-party hazard (DESIGN 9): the spinner's goroutine returned holding its lock;
                     # not a verdict about taskctl and not a fault of the harness - counted, run skipped
                     with self.lock:
@@ -149,9 +170,8 @@ class Batch:
                 return
             # the worker died: attribute to the seed in progress
             kind = classify_crash(err)
-            if rc == 3 and any(r.get("type") == "watchdog" and "briandowns/spinner" in r.get("stacks", "") for r in recs) and not any(
-                    h.get("type") == "watchdog" and h.get("index") == (last_begin or {}).get("index") for h in self.harness_errors):
-                kind = "spinner-hazard"
+            if rc == 3 and any(r.get("type") == "watchdog" and classify_hang(r.get("stacks", "")) != "unknown" for r in recs):
+                kind = "classified-hang"
             with self.lock:
                 m = re.search(r"^(panic: .*|fatal error: .*)$", err, re.M)
                 head = err[m.start():m.start() + 3500] if m else err[:2000]
@@ -343,6 +363,14 @@ def main():
                 print("VIOLATION property=%s replay=%s" % (rf["property"], sys.argv[2]))
                 sys.exit(1)
             sys.exit(0)
+        if rf.get("expect") == "hang":
+            recs, rc2, err2 = run_worker({"replay": sys.argv[2], "prop": rf.get("property", ""), "watchdog_s": 10}, timeout=60)
+            again = [classify_hang(r.get("stacks", "")) for r in recs if r.get("type") == "watchdog"]
+            print("hang classification on replay:", again)
+            if again and again[0] == rf.get("hang_kind"):
+                print("VIOLATION property=%s replay=%s" % (rf["property"], sys.argv[2]))
+                sys.exit(1)
+            sys.exit(0)
         end, rc, err = replay_once(sys.argv[2], rf.get("property", ""), full=True)
         if end is None:
             print(err[-4000:])
@@ -369,7 +397,7 @@ def main():
     total_w = float(sum(p.get("weight", 1) for p in parts))
     known = load_known()
     scratch = tempfile.mkdtemp(prefix="vcheck-", dir="/var/tmp")
-    all_results, all_crashes, harness_errors = [], [], []
+    all_results, all_crashes, harness_errors, all_deadlocks = [], [], [], []
     part_stats = []
     try:
         for part in parts:
@@ -377,6 +405,7 @@ def main():
             b.run()
             all_results += [(part, r) for r in b.results]
             all_crashes += [(b, c) for c in b.crashes]
+            all_deadlocks += [(b, d) for d in b.deadlocks]
             harness_errors += b.harness_errors
             part_stats.append({"engine": part["engine"], "profile": part["profile"], "runs": len(b.results), "third_party_spinner_hangs_skipped": b.spinner_hangs})
 
@@ -419,8 +448,8 @@ def main():
                 crash_viol.append((b, c))
             elif c["kind"] == "taskctl-panic":
                 harness_errors.append({"type": "crash-other-property", "note": "taskctl panicked (see C03/C12/C19 checks); this property's statement is silent about crashes", "panic": c.get("panic_line"), "stderr": c["stderr"][:1800], "begin": c["begin"]})
-            elif c["kind"] == "spinner-hazard":
-                pass  # counted in spinner_hangs
+            elif c["kind"] == "classified-hang":
+                pass  # counted in spinner_hangs / deadlocks
             else:
                 harness_errors.append({"type": "worker-died", "kind": c["kind"], "stderr": c["stderr"][-3000:], "begin": c["begin"]})
 
@@ -497,6 +526,33 @@ def main():
             print("VIOLATION property=%s replay=%s" % (prop, path), flush=True)
             reported.append({"rule": rule, "replay": path, "msg": v["msg"], "count": len(unknown)})
             exit_code = 1
+
+        # deadlocks of the system under test (real-time hang whose stacks show a complete lock cycle)
+        if all_deadlocks and prop in CRASH_PROPS:
+            b, d = sorted(all_deadlocks, key=lambda x: x[1]["index"])[0]
+            v = {"prop": prop, "rule": "deadlock", "msg": "the process deadlocks (%s): %d run(s) hung in real time with a complete lock cycle in their stacks" % (d["kind"].split(":", 1)[1], len(all_deadlocks)), "seq": 0}
+            k = known_match(prop, v, known)
+            if k:
+                known_hits[k["id"]] = (k, known_hits.get(k["id"], (k, 0))[1] + len(all_deadlocks))
+            else:
+                vals, rc_, err_ = trace_crash(b, {"index": d["index"], "seed": d["seed"]}, scratch)
+                path = os.path.join(OUT, "replays", prop, "deadlock-%d.json" % d["index"])
+                write_replay(path, {"engine": b.part["engine"], "property": prop, "profile": b.part["profile"], "tier": tier, "index": d["index"], "seed": d["seed"],
+                                    "choices": vals, "violation": v, "log_hash": "", "opts": b.part.get("opts", []), "expect": "hang", "hang_kind": d["kind"],
+                                    "stacks_excerpt": "\n\n".join(g for g in d["stacks"].split("\n\n") if "baseCockpit" in g)[:4000]})
+                # replay: must hang again with the same classification
+                job = {"replay": path, "prop": prop, "watchdog_s": 10}
+                recs, rc2, err2 = run_worker(job, timeout=60)
+                again = [classify_hang(r.get("stacks", "")) for r in recs if r.get("type") == "watchdog"]
+                if again and again[0] == d["kind"]:
+                    print("violation: rule=deadlock %s" % v["msg"], flush=True)
+                    print("VIOLATION property=%s replay=%s" % (prop, path), flush=True)
+                    reported.append({"rule": "deadlock", "replay": path, "msg": v["msg"], "count": len(all_deadlocks)})
+                    exit_code = 1
+                else:
+                    harness_errors.append({"type": "non-reproducible-deadlock", "index": d["index"], "got": again})
+        elif all_deadlocks:
+            harness_errors.append({"type": "deadlock-other-property", "note": "taskctl deadlocked (see the C03/C12/C19 checks); this property's statement is silent about it", "kind": all_deadlocks[0][1]["kind"], "index": all_deadlocks[0][1]["index"]})
 
         for b, c in crash_viol[:1] if crash_viol else []:
             vals, rc, err = trace_crash(b, c["begin"], scratch)
